@@ -103,6 +103,7 @@ type scn struct {
 	ParentMS   int64 `json:"parent_ms"`   // deadline offset
 	CancelStep int   `json:"cancel_step"` // scheduling step
 	Reuse      bool  `json:"reuse"`
+	Debug      bool  `json:"debug"` // Runtime.Debug: request and response are dumped through net/http/httputil
 	AdvanceIn  int   `json:"advance_in"`
 
 	T struct {
@@ -196,6 +197,7 @@ func generate(t *kernel.Tape) *scn {
 	s.ParentMS = int64(1 + t.Choose(5000, "parent-ms"))
 	s.CancelStep = 1 + t.Choose(40, "cancel-step")
 	s.Reuse = t.Bool(2, "reuse")
+	s.Debug = t.Bool(8, "debug-mode")
 	s.AdvanceIn = []int{0, 6, 12, 3}[t.Choose(4, "advance-in")]
 	// transport/body shape (no faults yet)
 	s.T.Pull = t.Choose(4, "pull")
@@ -526,6 +528,11 @@ func (prop) Run(t *testing.T, tape *kernel.Tape, sc kernel.Scenario) *kernel.Res
 		if s.Reuse {
 			rt.EnableConnectionReuse()
 		}
+		if s.Debug {
+			rt.Debug = true
+			rt.SetLogger(quietLogger{})
+			env.Fault("debug-mode")
+		}
 		op := &runtime.ClientOperation{
 			ID: "upload", Method: s.Method, PathPattern: "/things/{id}",
 			ProducesMediaTypes: []string{"application/json"},
@@ -674,6 +681,9 @@ func (prop) Run(t *testing.T, tape *kernel.Tape, sc kernel.Scenario) *kernel.Res
 			fatal = "transport error: " + w.tr.Exchanges[0].Err.Error()
 		case w.readerSawErr != nil && s.R.Propagate:
 			fatal = "response body error seen by the reader"
+		case s.Debug && len(w.tr.Exchanges) > 0 && w.tr.Exchanges[0].Resp != nil && debugDumpFault(w.tr.Exchanges[0].Resp):
+			// in debug mode the library itself reads the whole body (httputil.DumpResponse) before the reader runs
+			fatal = "response body fault met by the debug dump"
 		case s.R.Fail && w.readerRan && !(w.readerSawErr != nil && s.R.Propagate):
 			fatal = "reader rejected"
 		}
@@ -725,6 +735,15 @@ func (prop) Run(t *testing.T, tape *kernel.Tape, sc kernel.Scenario) *kernel.Res
 	res.FromEnv(env)
 	return res
 }
+
+func debugDumpFault(b *kernel.Stream) bool {
+	return (b.TermDelivered && b.Term != nil) || b.CtxErrDelivered || (b.CloseErr != nil && b.Closed > 0)
+}
+
+type quietLogger struct{}
+
+func (quietLogger) Printf(string, ...interface{}) {}
+func (quietLogger) Debugf(string, ...interface{}) {}
 
 func (w *world) sourceErr() bool {
 	for _, f := range w.files {
